@@ -13,7 +13,8 @@ Init == i \in 1..Len(Cases)
 Next == UNCHANGED i
 Spec == Init /\ [][Next]_i
 
-TextsOf(c) == SetToSeq(StringsUpTo({c.sigma[j] : j \in 1..Len(c.sigma)}, c.lo, c.hi))
+TextsOf(c) == IF "texts" \in DOMAIN c THEN c.texts
+              ELSE SetToSeq(StringsUpTo({c.sigma[j] : j \in 1..Len(c.sigma)}, c.lo, c.hi))
 
 Conv(c, t) == RegexFindAll(t, c.regex)
 Trans(c, t) == FindAll(Ctx(t, <<>>, ToPattern(c.regex), QuirkCode), ToPattern(c.regex))
